@@ -429,7 +429,26 @@ func stuckInLibrary() string {
 			first = g[:i]
 		}
 		if !strings.Contains(first, "[running]") && !strings.Contains(first, "[runnable]") {
-			continue // blocked (I/O, channel, lock): not a spin in the library
+			// blocked (channel, lock, semaphore, sleep). The harness never makes the
+			// library wait for anything (its readers and writers return at once), so a
+			// wait whose innermost non-runtime frame is a frame of the library is the
+			// library waiting for itself (a leaked token, a lock it already holds).
+			for _, ln := range strings.Split(g, "\n")[1:] {
+				if ln == "" || ln[0] == '\t' {
+					continue
+				}
+				if strings.HasPrefix(ln, "runtime.") || strings.HasPrefix(ln, "sync.") || strings.HasPrefix(ln, "sync/") ||
+					strings.HasPrefix(ln, "internal/") || strings.HasPrefix(ln, "time.") || strings.HasPrefix(ln, "golang.org/x/sync") {
+					continue
+				}
+				if strings.HasPrefix(ln, "github.com/gregoryv/mq.") {
+					if site := mqSite([]byte(g)); site != "outside-mq" {
+						return "waits-forever:" + site
+					}
+				}
+				break
+			}
+			continue
 		}
 		if site := mqSite([]byte(g)); site != "outside-mq" {
 			return site
